@@ -14,10 +14,12 @@ package chk
 // if-chain, De Morgan, a named boolean, a boolean flag that is set and tested.
 
 import (
+	"fmt"
 	"go/ast"
 	"go/constant"
 	"go/token"
 	"go/types"
+	"os"
 
 	"golang.org/x/tools/go/cfg"
 )
@@ -35,6 +37,13 @@ type Guard struct {
 	op   int
 	leaf func(Fact) bool
 	kids []Guard
+	ev   func(ast.Node) bool // event leaf: true once a node satisfying ev was passed
+}
+
+// GEvent is the guard "a node satisfying pred was executed" (since the entry of
+// the function, or since the start of the iteration in LoopIteration).
+func GEvent(pred func(ast.Node) bool) Guard {
+	return Guard{op: gLeaf, leaf: func(Fact) bool { return false }, ev: pred}
 }
 
 // GFunc makes a leaf from a fact recogniser.
@@ -98,6 +107,7 @@ func (gd Guard) Accepts(ft Fact) bool {
 
 type compiledGuard struct {
 	leaves []func(Fact) bool
+	events map[int]func(ast.Node) bool // leaf index -> event predicate
 	eval   func(vals []bool) bool
 }
 
@@ -112,6 +122,12 @@ func (gd Guard) compile() *compiledGuard {
 				return func([]bool) bool { return false }
 			}
 			c.leaves = append(c.leaves, g.leaf)
+			if g.ev != nil {
+				if c.events == nil {
+					c.events = map[int]func(ast.Node) bool{}
+				}
+				c.events[i] = g.ev
+			}
 			return func(v []bool) bool { return v[i] }
 		case gTrue:
 			return func([]bool) bool { return true }
@@ -353,7 +369,30 @@ func (g *Graph) newGuardAnalysis(gd Guard, withFlags bool) *guardAnalysis {
 		ga.nLeaf = 8 // leaves beyond the eighth are never established (conservative)
 	}
 	if withFlags {
-		ga.ca.flags = g.boolFlags()
+		all := g.boolFlags()
+		// the flags that a leaf of the guard recognises come first (the number tracked is bounded)
+		var tied, rest []types.Object
+		for _, o := range all {
+			id := g.flagIdent[o]
+			var probe ast.Expr = id
+			if g.nilFlags[o] {
+				probe = g.flagNilCmp[o]
+			}
+			isTied := false
+			if probe != nil && id != nil {
+				for i := 0; i < ga.nLeaf; i++ {
+					if ga.c.leaves[i](Fact{probe, true}) || ga.c.leaves[i](Fact{probe, false}) {
+						isTied = true
+					}
+				}
+			}
+			if isTied {
+				tied = append(tied, o)
+			} else {
+				rest = append(rest, o)
+			}
+		}
+		ga.ca.flags = append(tied, rest...)
 		if len(ga.ca.flags) > 10-ga.nLeaf {
 			ga.ca.flags = ga.ca.flags[:10-ga.nLeaf]
 		}
@@ -757,6 +796,10 @@ func (g *Graph) boolFlags() []types.Object {
 					g.flagIdent = map[types.Object]*ast.Ident{}
 				}
 				g.flagIdent[o] = id
+				if g.flagNilCmp == nil {
+					g.flagNilCmp = map[types.Object]ast.Expr{}
+				}
+				g.flagNilCmp[o] = &ast.BinaryExpr{X: be.X, Op: token.EQL, Y: be.Y, OpPos: be.OpPos}
 				return true
 			})
 		}
@@ -786,7 +829,7 @@ func (ga *guardAnalysis) full() []uint64 {
 		}
 		var probe ast.Expr = id
 		if ga.g.nilFlags[o] {
-			probe = &ast.BinaryExpr{X: id, Op: token.EQL, Y: ast.NewIdent("nil"), OpPos: id.Pos()}
+			probe = ga.g.flagNilCmp[o] // a comparison with nil taken from the code (its nodes carry type information)
 		}
 		for i := 0; i < ga.nLeaf; i++ {
 			l := ga.c.leaves[i]
@@ -801,6 +844,11 @@ func (ga *guardAnalysis) full() []uint64 {
 	n := 1 << uint(ga.nVar)
 	for a := 0; a < n; a++ {
 		ok := true
+		for i := range ga.c.events {
+			if i < ga.nLeaf && a&(1<<uint(i)) != 0 {
+				ok = false // no event has happened at the start
+			}
+		}
 		for _, t := range fties {
 			lv := a&(1<<uint(t.leaf)) != 0
 			fv := a&(1<<uint(ga.nLeaf+t.flag)) != 0
@@ -858,6 +906,19 @@ func bsEmpty(a []uint64) bool {
 
 // transferNode applies the effect of a node on the flag variables.
 func (ga *guardAnalysis) transferNode(n ast.Node, s []uint64) []uint64 {
+	for i, pred := range ga.c.events {
+		if i >= ga.nLeaf || !pred(n) {
+			continue
+		}
+		out := make([]uint64, ga.words)
+		for a := 0; a < 1<<uint(ga.nVar); a++ {
+			if s[a/64]&(1<<uint(a%64)) != 0 {
+				na := a | 1<<uint(i)
+				out[na/64] |= 1 << uint(na%64)
+			}
+		}
+		s = out
+	}
 	if ga.nFlag == 0 {
 		return s
 	}
@@ -934,15 +995,20 @@ func (ga *guardAnalysis) transferNode(n ast.Node, s []uint64) []uint64 {
 				k := ga.ca.flagIndex(f.Info().Defs[nm])
 				if k >= 0 {
 					// zero value: false
+					// zero value: false for a boolean, nil (flag true) for a pointer-like variable
+					zero := ga.g.nilFlags[ga.ca.flags[k]]
 					bit := uint(ga.nLeaf + k)
 					out := make([]uint64, ga.words)
 					for a := 0; a < 1<<uint(ga.nVar); a++ {
 						if s[a/64]&(1<<uint(a%64)) != 0 {
 							na := a &^ (1 << bit)
+							if zero {
+								na |= 1 << bit
+							}
 							for _, t := range ga.fties {
 								if t.flag == k {
 									na &^= 1 << uint(t.leaf)
-									if !t.pos {
+									if zero == t.pos {
 										na |= 1 << uint(t.leaf)
 									}
 								}
@@ -986,10 +1052,8 @@ func (ga *guardAnalysis) nilForm(rhs ast.Expr) *cform {
 	case *ast.CompositeLit, *ast.FuncLit:
 		return &cform{op: gTrue, val: false}
 	case *ast.CallExpr:
-		if id, ok := x.Fun.(*ast.Ident); ok && (id.Name == "new" || id.Name == "make") {
-			if _, isB := f.Info().Uses[id].(*types.Builtin); isB {
-				return &cform{op: gTrue, val: false}
-			}
+		if f.KnownNonNil(x) {
+			return &cform{op: gTrue, val: false}
 		}
 	}
 	if id, ok := ast.Unparen(f.Resolve(rhs)).(*ast.Ident); ok {
@@ -1197,7 +1261,7 @@ func (g *Graph) LoopIteration(rs *ast.RangeStmt, guard Guard) []IterationEnd {
 				continue
 			}
 			// leaving the loop region to a statement outside the loop (labelled break / goto)
-			if nb.Stmt != nil && !Encloses(rs, nb.Stmt) && len(nb.Nodes) == 0 && nb.Kind != cfg.KindUnreachable {
+			if blockOutside(nb, rs) {
 				key := endKey{b, true}
 				if cur, ok := ends[key]; ok {
 					bsUnion(cur, t)
@@ -1237,6 +1301,9 @@ func (g *Graph) LoopEntryDominated(rs *ast.RangeStmt, guard Guard) bool {
 	in := ga.solve()
 	ok := false
 	region := g.loopRegion(rs)
+	if os.Getenv("MLB_DEBUG_GUARD") != "" {
+		fmt.Fprintln(os.Stderr, "LoopEntryDominated", g.Fn.Name(), g.Fn.Prog.Rel(rs.Pos()), "flags", ga.ca.flags, "nil", g.nilFlags, "fties", ga.fties, "nLeaf", ga.nLeaf, "universe", ga.universe, "holds", ga.holds)
+	}
 	for _, b := range g.Blocks {
 		for k, nb := range b.Succs {
 			if nb != loop || region[b] {
@@ -1251,6 +1318,12 @@ func (g *Graph) LoopEntryDominated(rs *ast.RangeStmt, guard Guard) bool {
 			}
 			if al := ga.edgeAllowed(Edge{b, k}); al != nil {
 				s = bsIntersect(s, al)
+			}
+			if os.Getenv("MLB_DEBUG_GUARD") != "" {
+				fmt.Fprintln(os.Stderr, "  entry pred block", b.Index, b.Kind, "nodes", len(b.Nodes), "in", in[b], "out", s)
+				for _, n := range b.Nodes {
+					fmt.Fprintf(os.Stderr, "    %T %s\n", n, g.Fn.Prog.Rel(n.Pos()))
+				}
 			}
 			if !bsSubset(s, ga.holds) {
 				return false
@@ -1275,7 +1348,7 @@ func (g *Graph) loopRegion(rs *ast.RangeStmt) map[*cfg.Block]bool {
 		b := work[len(work)-1]
 		work = work[:len(work)-1]
 		for _, nb := range b.Succs {
-			if nb == loop || nb == done || region[nb] {
+			if nb == loop || nb == done || region[nb] || blockOutside(nb, rs) {
 				continue
 			}
 			region[nb] = true
@@ -1346,4 +1419,39 @@ func (g *Graph) BoolResultIs(guard Guard) string {
 		return "no return statement"
 	}
 	return ""
+}
+
+// KnownNonNil reports whether the expression certainly is not nil: an address, a
+// composite or function literal, new / make, fmt.Errorf / errors.New.
+func (f *Fn) KnownNonNil(e ast.Expr) bool {
+	switch x := ast.Unparen(e).(type) {
+	case *ast.UnaryExpr:
+		return x.Op == token.AND
+	case *ast.CompositeLit, *ast.FuncLit:
+		return true
+	case *ast.CallExpr:
+		if id, ok := x.Fun.(*ast.Ident); ok && (id.Name == "new" || id.Name == "make") {
+			if _, isB := f.Info().Uses[id].(*types.Builtin); isB {
+				return true
+			}
+		}
+		if fn, ok := f.Callee(x).(*types.Func); ok && fn.Pkg() != nil {
+			switch fn.Pkg().Path() + "." + fn.Name() {
+			case "fmt.Errorf", "errors.New", "github.com/pkg/errors.New", "github.com/pkg/errors.Errorf", "github.com/pkg/errors.Wrap", "github.com/pkg/errors.Wrapf":
+				return true
+			}
+		}
+	}
+	return false
+}
+
+// blockOutside reports whether the block lies outside the loop statement.
+func blockOutside(b *cfg.Block, rs *ast.RangeStmt) bool {
+	if len(b.Nodes) > 0 {
+		return !Encloses(rs, b.Nodes[0])
+	}
+	if b.Stmt != nil {
+		return !Encloses(rs, b.Stmt)
+	}
+	return false
 }
